@@ -25,8 +25,11 @@ def build():
     w = World('C07')
     w.refclass('Obj', {}, universal=True)
     w.enum('AccessKind', QLT, 'AccessKind'); w.enum('Action', QLT, 'AccessPolicyAction')
-    w.refclass('Pol', {}); w.refclass('Opts', {'func_params': 'Opt[Obj]'}); w.refclass('Env', {'schema': 'Obj', 'options': 'Opts'})
-    w.refclass('Ctx', {'env': 'Env', 'anchors': 'Obj'})
+    w.refclass('Pol', {}); w.refclass('Opts', {'func_params': 'Opt[Obj]'}); w.refclass('TypeT', {}, universal=True)
+    # env.type_rewrites is a dict held BY REFERENCE: try_type_rewrite keeps an alias of it while the code it calls may rebind the attribute
+    w.refdict('RWD', 'Map[Tuple[TypeT,bool],Opt[Obj]]')
+    w.refclass('Env', {'schema': 'Obj', 'options': 'Opts', 'type_rewrites': 'RWD'})
+    w.refclass('Ctx', {'env': 'Env', 'anchors': 'Obj', 'partial_path_prefix': 'Obj', 'path_scope': 'Obj', 'expr_exposed': 'Obj'})
     w.ufunc('holds', ['Obj'], 'bool'); w.ufunc('polsem', ['Pol'], 'bool'); w.ufunc('irsem', ['Obj'], 'bool')
     w.ufunc('kinds', ['Pol'], 'Set[AccessKind]'); w.ufunc('action', ['Pol'], 'Action')
     w.trusted.append('semantics of expression constructors (outside reach): BinOp(l, r, AND/OR) is the conjunction / disjunction, UnaryOp(NOT, x) the negation, Constant.boolean(b) is b; '
@@ -80,7 +83,7 @@ def build():
     #     ancestor goes through the plain inheritance view or is expanded so that the descendant's policy filter is applied)
     # spec: HOP(t, skip) is the recursive predicate  LOCAL(t, skip) or some child c of t has HOP(c, t),  LOCAL(t, skip) = some policy p of t none of
     #       whose bases has subject `skip`.  The recursion of the real function is the induction: its contract is assumed at the recursive calls.
-    w.refclass('TypeT', {}, universal=True); w.refclass('PolColl', {})
+    w.refclass('PolColl', {})
     w.ufunc('POLS', ['TypeT'], 'Seq[Pol]'); w.ufunc('CH', ['TypeT'], 'Seq[TypeT]'); w.ufunc('BASES', ['Pol'], 'Seq[Pol]'); w.ufunc('SUBJ', ['Pol'], 'Opt[TypeT]')
     w.ufunc('COLL', ['PolColl'], 'Seq[Pol]'); w.ufunc('HOP', ['TypeT', 'Opt[TypeT]'], 'bool')
     w.trusted.append('schema accessors of has_own_policies are uninterpreted functions of the (fixed) schema: POLS(t) = get_access_policies(t), CH(t) = t.children(), BASES(p), SUBJ(p)')
@@ -99,6 +102,75 @@ def build():
     w.ext_methods['Pol.get_bases'] = dict(params={'schema': 'Obj'}, returns='PolColl', ensures=['COLL(result) == BASES(self)'])
     w.ext_methods['PolColl.objects'] = dict(params={'schema': 'Obj'}, returns='Seq[Pol]', ensures=['result == COLL(self)'])
     w.ext_methods['Pol.get_subject'] = dict(params={'schema': 'Obj'}, returns='Opt[TypeT]', ensures=['result == SUBJ(self)'])
+
+    # F5  try_type_rewrite (object types that are not unions / intersections): when it returns, the type's key is registered in the environment's
+    #     table of rewrites -- the table the rest of the compiler consults (`ctx.env.type_rewrites` as it is THEN) -- and it holds a real rewrite
+    #     whenever the type has policies of its own or a descendant has (HOP).  Everything the function calls into the expression compiler is outside
+    #     reach; the assumed contract of those calls is only: they may add entries, and they may REBIND env.type_rewrites to another dict that still has
+    #     every key that was registered when they were called (what typegen's `typeof` branch does when it restores its snapshot).
+    w.ufunc('ISCOMP', ['TypeT'], 'bool'); w.ufunc('ISABS', ['TypeT'], 'bool')
+    w.ext_methods['TypeT.is_compound_type'] = dict(params={'schema': 'Obj'}, returns='bool', ensures=['result == ISCOMP(self)'])
+    w.ext_methods['TypeT.get_abstract'] = dict(params={'schema': 'Obj'}, returns='bool', ensures=['result == ISABS(self)'])
+    KEYS_KEPT = 'forall(TypeT, bool, lambda t, b: implies(old((t, b) in ctx.env.type_rewrites), (t, b) in ctx.env.type_rewrites))'
+    COMPILE = dict(modifies=['Env.type_rewrites', 'RWD.m', '$alloc', 'Ctx.anchors'], ensures=[KEYS_KEPT], raises={'QueryError': {}})
+    def comp(params, returns='Obj', **kw):
+        d = dict(COMPILE); d['params'] = params; d['returns'] = returns; d.update(kw); return d
+    w.trusted.append('calls into the expression compiler from try_type_rewrite (class_set, scoped_set, compile_where_clause, expression_set, ensure_stmt, dispatch.compile, create_anchor, '
+                     'get_rewrite_filter) are assumed only to keep every registered key of the environment\'s rewrite table (possibly in a new dict object) and to raise QueryError at most')
+    w.refclass('StmtT', {'where': 'Obj'})
+    XF = {'setgen.class_set': comp({'stype': 'TypeT', 'skip_subtypes': 'bool', 'ctx': 'Ctx'}),
+          'setgen.scoped_set': comp({'stmt': 'StmtT', 'ctx': 'Ctx'}),
+          'clauses.compile_where_clause': comp({'where': 'Opt[Obj]', 'ctx': 'Ctx'}),
+          'get_rewrite_filter': comp({'stype': 'TypeT', 'mode': 'AccessKind', 'ctx': 'Ctx'}, returns='Opt[Obj]'),
+          'dispatch.compile': comp({'expr': 'Obj', 'ctx': 'Ctx'}),
+          'irast.SelectStmt': dict(params={'result': 'Obj'}, returns='StmtT'),
+          'get_access_policies': dict(params={'stype': 'TypeT', 'ctx': 'Ctx'}, returns='Seq[Pol]', ensures=['result == POLS(stype)'])}
+    SAME_ENV = ['result.env == self.env']
+    w.ext_methods['Ctx.detached'] = dict(params={}, returns='Ctx', context_manager=True, modifies=['$alloc'], ensures=SAME_ENV)
+    w.ext_methods['Ctx.new'] = dict(params={}, returns='Ctx', context_manager=True, modifies=['$alloc'], ensures=SAME_ENV)
+    RW = 'ctx.env.type_rewrites'
+    w.contract(POL, 'try_type_rewrite', params={'stype': 'TypeT', 'skip_subtypes': 'bool', 'ctx': 'Ctx'}, returns='none',
+        requires=['not ISCOMP(stype)'],
+        modifies=['Env.type_rewrites', 'RWD.m', '$alloc', 'Ctx.anchors', 'Ctx.partial_path_prefix', 'Ctx.path_scope', 'Ctx.expr_exposed', 'StmtT.where'],
+        ensures=['(stype, skip_subtypes) in %s' % RW,
+                 # the type itself has policies (or, unless subtypes are skipped, a descendant has): a real rewrite is registered where the compiler will look
+                 'implies(len(POLS(stype)) > 0 and not ISABS(stype), not is_none(%s[(stype, skip_subtypes)]))' % RW,
+                 KEYS_KEPT],
+        raises={'QueryError': {}},
+        abstract={'if children_have_policies:#0': dict(assigns={'children_overlap': 'bool', 'descs': 'Seq[TypeT]'}),
+                  'subctx.path_scope = subctx.env.path_scope.root.attach_fence()': dict(),
+                  "subctx.anchors['__subject__'] = base_set": dict(),
+                  'if children_have_policies and (not skip_subtypes):': dict(assigns={'sets': 'Seq[Obj]'}, modifies=['Env.type_rewrites', 'RWD.m', '$alloc', 'Ctx.anchors'],
+                        ensures=['len(sets) >= len(old(sets))', KEYS_KEPT]),
+                  'if len(sets) > 1:': dict(assigns={'rewritten_set': 'Opt[Obj]'}, modifies=['Env.type_rewrites', 'RWD.m', '$alloc', 'Ctx.anchors'],
+                        ensures=['is_none(rewritten_set) == (len(sets) == 0)', KEYS_KEPT])},
+        hints={'ext_funcs': XF, 'var_types': {'sets': 'Seq[Obj]'}})
+
+    # second view: the same body against a quantifier-free version of the assumed compile contract (only the function's own key is tracked), so that the
+    # obligation "the finished rewrite is registered in the live table" is decidable both ways (a definite counter-model instead of a solver timeout)
+    OWN_KEPT = 'implies(old((K_t, K_b) in ctx.env.type_rewrites), (K_t, K_b) in ctx.env.type_rewrites)'
+    BIND = {'K_t': 'stype', 'K_b': 'skip_subtypes'}
+    def gcomp(params, returns='Obj', **kw):
+        d = dict(COMPILE); d['ensures'] = [OWN_KEPT]; d['bind'] = BIND; d['params'] = params; d['returns'] = returns; d.update(kw); return d
+    XG = dict(XF)
+    XG.update({'setgen.class_set': gcomp({'stype': 'TypeT', 'skip_subtypes': 'bool', 'ctx': 'Ctx'}), 'setgen.scoped_set': gcomp({'stmt': 'StmtT', 'ctx': 'Ctx'}),
+               'clauses.compile_where_clause': gcomp({'where': 'Opt[Obj]', 'ctx': 'Ctx'}), 'dispatch.compile': gcomp({'expr': 'Obj', 'ctx': 'Ctx'}),
+               'get_rewrite_filter': gcomp({'stype': 'TypeT', 'mode': 'AccessKind', 'ctx': 'Ctx'}, returns='Opt[Obj]')})
+    OWN_BLOCK = 'implies(old((stype, skip_subtypes) in ctx.env.type_rewrites), (stype, skip_subtypes) in ctx.env.type_rewrites)'
+    w.contract(POL, 'try_type_rewrite', view='live', params={'stype': 'TypeT', 'skip_subtypes': 'bool', 'ctx': 'Ctx'}, returns='none',
+        requires=['not ISCOMP(stype)'],
+        modifies=['Env.type_rewrites', 'RWD.m', '$alloc', 'Ctx.anchors', 'Ctx.partial_path_prefix', 'Ctx.path_scope', 'Ctx.expr_exposed', 'StmtT.where'],
+        ensures=['(stype, skip_subtypes) in %s' % RW,
+                 'implies(len(POLS(stype)) > 0 and not ISABS(stype), not is_none(%s[(stype, skip_subtypes)]))' % RW],
+        raises={'QueryError': {}},
+        abstract={'if children_have_policies:#0': dict(assigns={'children_overlap': 'bool', 'descs': 'Seq[TypeT]'}),
+                  'subctx.path_scope = subctx.env.path_scope.root.attach_fence()': dict(),
+                  "subctx.anchors['__subject__'] = base_set": dict(),
+                  'if children_have_policies and (not skip_subtypes):': dict(assigns={'sets': 'Seq[Obj]'}, modifies=['Env.type_rewrites', 'RWD.m', '$alloc', 'Ctx.anchors'],
+                        ensures=['len(sets) >= len(old(sets))', OWN_BLOCK]),
+                  'if len(sets) > 1:': dict(assigns={'rewritten_set': 'Opt[Obj]'}, modifies=['Env.type_rewrites', 'RWD.m', '$alloc', 'Ctx.anchors'],
+                        ensures=['is_none(rewritten_set) == (len(sets) == 0)', OWN_BLOCK])},
+        hints={'ext_funcs': XG, 'var_types': {'sets': 'Seq[Obj]'}})
     return w
 
 # ---------------------------------------------------------------------------------------------------------------------
